@@ -211,7 +211,7 @@ def check_frame(root, spec, kind, i, variant, base=None):
         if a != b:
             fails.append({'law': f'frame/{kind}', 'detail': f'changing {kind} changed the parsed rows (source, date, description, |amount|): '
                           + str(first_diff([list(x) for x in a], [list(x) for x in b]))})
-    elif kind == 'layout' or (kind == 'ascii' and spec['sources'][i]['supplemental']):
+    elif kind in ('layout', 'cwd') or (kind == 'ascii' and spec['sources'][i]['supplemental']):
         # where the config directory physically lives / how an irrelevant cell of a supplemental file is spelled
         # governs nothing in the report
         df = first_diff(canon(base['html']['data']), canon(v['html']['data']))
@@ -343,7 +343,7 @@ def plan_toggles(spec, rnd, k):
     for i in ns:
         for kind in SOURCE_KINDS + ROW_ORDER_KINDS:
             cands.append((kind, i))
-    for kind in ('rule_mode', 'rules', 'views', 'currency_format', 'layout'):
+    for kind in ('rule_mode', 'rules', 'views', 'currency_format', 'layout', 'cwd'):
         cands.append((kind, None))
     if 'source' not in json.dumps(spec['rules']):      # no rule looks at the source name
         for i in ns:
@@ -543,6 +543,29 @@ def corpus():
     only = bud([S('Bank', 'data/bank.csv', copy.deepcopy(pay))], kind='csv', csv=[tagcsv[0]])     # nothing but one tag-only row
     only['expect_tags'] = {'ACME PAYROLL': ['income'], 'NETFLIX.COM': []}
     out.append((only, [], None))
+    # ---- the command is started from a sibling budget's directory holding files at the same relative paths: a source whose
+    #      file is missing from THIS budget is missing (reported, contributes nothing) - transaction and supplemental sources alike
+    for st in ('missing', 'present'):
+        wb = bud([S('Card', 'data/card.csv', copy.deepcopy(jan)), S('Bank', 'data/bank.csv', copy.deepcopy(feb), state=st)],
+                 kind='rules', rules=['Netflix', 'Costco', 'Fuel'])
+        wb['cwd'] = 'decoy'
+        out.append((wb, [('cwd', None)], None))
+    sw = bud([S('Card', 'data/card.csv', copy.deepcopy(card)),
+              S('Orders', 'data/orders.csv', [R('2025-02-07', 'Book', 100)], cols=['date', 'item', 'amount'], supplemental=True, template='{item}', state='missing')],
+             kind='rules', expect={'AMZN MKTP US': [None, 'Unknown', 'Unknown']})
+    sw['rules']['rules'] = [B.mkrule(B.SUPP_RULES[1])]
+    sw['cwd'] = 'decoy'
+    sw['sources'][1]['rows'] = [R('2025-02-07', 'Book', -700)]     # the sibling's orders file would match 25.00 (= (-700+800)/4)
+    out.append((sw, [('cwd', None)], None))
+    # ---- legacy CSV patterns that merely CONTAIN upper-case words like AND / OR / FIELD. / YEAR= / SPLIT ( are plain regexes
+    kw = [R('2025-01-04', 'BATH AND BODY WORKS', 200), R('2025-01-05', 'Bath and Body Works', 120), R('2025-01-06', 'PIZZA OR PASTA HOUSE', 90),
+          R('2025-01-07', 'FIELD TRIP BUS', 60), R('2025-01-08', 'YEAR=END SALE', 40), R('2025-01-09', 'SPLIT PAYMENT 3', 30),
+          R('2025-01-10', 'SOURCE=WEB ORDER', 20), R('2025-01-11', 'NETFLIX.COM', 62)]
+    kwcsv = [['BATH AND BODY', 'Bath Body', 'Shopping', 'Beauty', ''], ['PIZZA OR PASTA', 'Pizza Pasta', 'Food', 'Italian', ''],
+             ['FIELD.TRIP', 'Field Trip', 'Kids', 'School', ''], ['YEAR=END', 'Year End', 'Shopping', 'Sale', ''],
+             ['SPLIT (PAYMENT)', 'Split', 'Banking', 'Instalment', ''], ['SOURCE=WEB', 'Web', 'Shopping', 'Web', ''],
+             ['NETFLIX', 'Netflix', 'Subscriptions', 'Streaming', '']]
+    out.append((bud([S('Card', 'data/card.csv', kw)], kind='csv', csv=kwcsv), [], None))
     cb = bud([S('Chase', 'data/chase.csv', copy.deepcopy(jan))], kind='csv', csv=B.CSV_POOL[:4])
     cb['layout'] = 'symlink-decoy'
     out.append((cb, [('layout', None)], None))
